@@ -122,11 +122,40 @@ def gen_large(recipe, rng):
   return {'est': 'LMNN', 'init': 'identity', 'mode': 'large_n', 'shape_kind': 'large_n', 'events': events}
 
 
+def gen_rank_case(recipe, rng):
+  """LMNN, n_neighbors = 2, under a strongly anisotropic initial transformation diag(1, 2^-8): three impostors sit inside the
+  margin of the CLOSER target neighbour of one sample and outside the margin of its FARTHER one (the farther one differs
+  along the squashed axis), and no other margin is violated - the push term comes from the first target rank alone"""
+  e = 2.0 ** -8
+  A = np.array([[0.0, 0.0], [-0.125, 0.0], [-0.046875, 5.0]])
+  B = np.array([[257.0 / 256.0, 0.0], [257.0 / 256.0, 3.0], [257.0 / 256.0, -4.0]])
+  t = np.round(rng.normal(size=2) * 8.0) / 8.0                 # (a common translation: the objective does not see it)
+  X = np.vstack([A, B]) + t
+  y = np.array([0, 0, 0, 1, 1, 1])
+  p = rng.permutation(6)
+  X, y = X[p], y[p]
+  reg = float(rng.choice([0.25, 0.5, 0.75]))
+  L0 = np.array([[1.0, 0.0], [0.0, e]])
+  with warnings.catch_warnings():
+    warnings.simplefilter('ignore')
+    est = gen.LMNN(init=L0.copy(), n_neighbors=2, max_iter=3, min_iter=1, learn_rate=1e-9, regularization=reg, random_state=0)
+    with LmnnProbe() as pr:
+      est.fit(X, y)
+  events = [{'ev': 'Data', 'algo': 'LMNN', 'X': dym(X), 'y': [int(v) for v in y],
+             'targets': [[int(t_) + 1 for t_ in row] for row in pr.targets], 'k': 2, 'reg': dy(reg),
+             'learn_rate': dy(est.learn_rate), 'rate_up': dy(1.01)}]
+  for (Lc, v, g, act) in pr.evals[:2]:
+    events.append({'ev': 'Eval', 'L': dym(Lc), 'value': dy(v), 'grad': dym(g), 'active': act, 'light': False})
+  return {'est': 'LMNN', 'init': 'array', 'mode': 'rank', 'shape_kind': 'one_rank_active', 'events': events}
+
+
 def gen_trace(recipe):
   rng = np.random.default_rng(recipe['seed'])
   algo = recipe['algo']
   if recipe.get('large_n'):
     return gen_large(recipe, rng)
+  if recipe.get('rank_case'):
+    return gen_rank_case(recipe, rng)
   d = int(rng.integers(2, 4))
   ncls = int(rng.integers(2, 4))
   X, y = gen.dataset(rng, d=d, n_classes=ncls, per_class=(int(rng.integers(4, 6)) if ncls == 2 else 4) if True else 4, bits=4, sep=1.5)
@@ -218,6 +247,8 @@ def run(ctx):
   # LMNN on LARGE training sets (tens of thousands of active hinge terms): the objective at the first evaluated point(s)
   for m in ([140, 190] if ctx.quick else [140, 170, 200, 240, 280, 330, 150, 260]):
     rs.append(dict(algo='LMNN', large_n=m, evals=1 if ctx.quick else 2, seed=int(rng.integers(1 << 30))))
+  for _ in range(2 if ctx.quick else 6):
+    rs.append(dict(algo='LMNN', rank_case=True, seed=int(rng.integers(1 << 30))))
   ctx.rule = ('real NCA / MLKR / LMNN fits on random well-formed (X, y) (y real for MLKR), n_components None or 1..d, every init '
               'option, n_neighbors 1..2, regularization in {1/4,1/2,3/4}, learn_rate, {zero optimiser iterations, a few}; one '
               'event per evaluation the optimiser asked for (<= 5 / 10 per fit); distinct by (learner, init, data); '
